@@ -8,14 +8,15 @@ Section CloseAlgebra.
 
 Variable num : Type.
 Variable isparam : ident -> bool.
+Variable assignable : ident -> bool.
 Notation expr := (expr num).
 Notation scope := (scope num).
 Notation value := (value num).
 Notation sub := (sub num).
-Notation okp := (okp isparam).
-Notation wss := (wss isparam).
-Notation wsv := (wsv isparam).
-Notation wsvars := (wsvars isparam).
+Notation okp := (okp isparam assignable).
+Notation wss := (wss isparam assignable).
+Notation wsv := (wsv isparam assignable).
+Notation wsvars := (wsvars isparam assignable).
 
 Lemma ident_eqb_sym : forall x y, ident_eqb x y = ident_eqb y x.
 Proof.
@@ -94,15 +95,12 @@ Lemma okp_msub : forall (e : expr) (th : sub) bd,
   (forall y t, lookup y th = Some t -> okp bd t = true) ->
   okp bd (msub th e) = true.
 Proof.
-  induction e; intros th bd H R; cbn [Close.okp msub] in *; auto.
+  induction e; intros th bd H R; cbn [Close.okp msub] in *; auto;
+    try (apply andb_true_iff in H; destruct H; apply andb_true_iff; split; eauto; fail).
   - destruct (lookup x th) as [t|] eqn:L; [eapply R; exact L|].
     cbn [Close.okp]. apply orb_true_iff in H. apply orb_true_iff.
     destruct H as [H|H]; [left; exact H|]. right.
     rewrite inb_app, (lookup_none_dom _ _ L) in H. exact H.
-  - apply andb_true_iff in H. destruct H. apply andb_true_iff. split; eauto.
-  - apply andb_true_iff in H. destruct H. apply andb_true_iff. split; eauto.
-  - apply andb_true_iff in H. destruct H. apply andb_true_iff. split; eauto.
-  - apply andb_true_iff in H. destruct H. apply andb_true_iff. split; eauto.
   - apply andb_true_iff in H. destruct H as [H1 H2]. apply andb_true_iff. split; [exact H1|].
     apply IHe.
     + eapply okp_weaken; [|exact H2]. intro y. unfold inb. cbn [existsb].
@@ -121,7 +119,6 @@ Proof.
       * rewrite lookup_remove_other in L by exact E.
         eapply okp_weaken; [|eapply R; exact L]. intro z. unfold inb. cbn [existsb].
         intro Q. rewrite Q. apply orb_true_r.
-  - apply andb_true_iff in H. destruct H. apply andb_true_iff. split; eauto.
 Qed.
 
 (* a substitution that only touches parameter names outside bd leaves a
@@ -261,6 +258,7 @@ Variable builtin_apply : ident -> num -> option num.
 Variable unit_of : ident -> option num.
 Variable unit_static : ident -> option num.
 Variable isparam : ident -> bool.
+Variable assignable : ident -> bool.
 
 (* the evaluator itself introduces the parameter x (wrap_with_expr); names
    of built-in functions are not parameter names; no unit is called a_b with
@@ -274,10 +272,10 @@ Notation scope := (scope num).
 Notation value := (value num).
 Notation state := (state num).
 Notation M := (M num).
-Notation okp := (okp isparam).
-Notation wss := (wss isparam).
-Notation wsv := (wsv isparam).
-Notation wsvars := (wsvars isparam).
+Notation okp := (okp isparam assignable).
+Notation wss := (wss isparam assignable).
+Notation wsv := (wsv isparam assignable).
+Notation wsvars := (wsvars isparam assignable).
 Notation eval := (Calc.eval num num_un num_bop builtin builtin_apply unit_of unit_static).
 Notation eval_node := (Calc.eval_node num num_un num_bop builtin builtin_apply unit_of unit_static).
 Notation resolve := (Calc.resolve num builtin unit_of).
@@ -486,7 +484,8 @@ Section PresNode.
       eapply Pres_bind; [apply Hev; assumption|]. intros va Ha. apply Pres_apply; auto.
     - apply andb_true_iff in O. destruct O as [P O].
       apply Pres_ret. unfold okv. cbn [Close.wsv]. rewrite P, O, W. reflexivity.
-    - eapply Pres_bind; [apply Hev; assumption|]. intros v Hv.
+    - apply andb_true_iff in O. destruct O as [_ O].
+      eapply Pres_bind; [apply Hev; assumption|]. intros v Hv.
       eapply Pres_bind; [apply Pres_assign; exact Hv|]. intros. apply Pres_ret. exact Hv.
     - apply andb_true_iff in O. destruct O as [O1 O2].
       eapply Pres_bind; [apply Hev; assumption|]. intros _ _. apply Hev; assumption.
@@ -591,7 +590,7 @@ Proof.
   exfalso. destruct (ident_eqb g id_x) eqn:E.
   - apply ident_eqb_eq in E. subst g. rewrite lookup_remove_same in L. discriminate.
   - rewrite lookup_remove_other in L by exact E.
-    pose proof (closing_dom_param num isparam sc W _ _ L) as P. congruence.
+    pose proof (closing_dom_param num isparam assignable sc W _ _ L) as P. congruence.
 Qed.
 
 Lemma RV_fn_lz : forall p b1 c1 b2 c2 lz, lz_ok lz ->
@@ -669,8 +668,8 @@ Lemma close_fn_body : forall p (b : expr) arg s c,
   isparam p = true -> wss c = true -> okp (dom s) arg = true -> wss s = true ->
   close (SCons p arg s c) b = msub [(p, EParens (close s arg))] (msub (remove p (closing c)) b).
 Proof.
-  intros. unfold close. cbn [closing]. apply (msub_cons num isparam); [assumption|].
-  apply (closing_ranges num isparam). assumption.
+  intros. unfold close. cbn [closing]. apply (msub_cons num isparam assignable); [assumption|].
+  apply (closing_ranges num isparam assignable). assumption.
 Qed.
 
 Section RelNode.
@@ -734,7 +733,7 @@ Section RelNode.
     assert (forall (e : expr) sc x, config_ok e sc -> e = EIdent x -> isparam x = false -> close sc e = EIdent x) as G.
     { intros e sc x [O W] -> Px. unfold close. cbn [msub].
       destruct (lookup x (closing sc)) as [t|] eqn:L; [|reflexivity].
-      pose proof (closing_dom_param num isparam sc W _ _ L). congruence. }
+      pose proof (closing_dom_param num isparam assignable sc W _ _ L). congruence. }
     assert (forall (e : expr) sc x, close sc e = EIdent x -> e = EIdent x) as Inv.
     { intros e sc x. unfold close. destruct e; cbn [msub]; try discriminate.
       destruct (lookup x0 (closing sc)) as [t|] eqn:L.
@@ -761,7 +760,11 @@ Section RelNode.
   Lemma ok_par : forall (a : expr) sc, config_ok (EParens a) sc -> config_ok a sc.
   Proof. intros a sc [O W]. split; assumption. Qed.
   Lemma ok_assign : forall (a : expr) sc x, config_ok (EAssign x a) sc -> config_ok a sc.
-  Proof. intros a sc x [O W]. split; assumption. Qed.
+  Proof.
+    intros a sc x [O W]. cbn [Close.okp] in O. apply andb_true_iff in O. destruct O. split; assumption.
+  Qed.
+  Lemma ok_assignable : forall (a : expr) sc x, config_ok (EAssign x a) sc -> assignable x = true.
+  Proof. intros a sc x [O W]. cbn [Close.okp] in O. apply andb_true_iff in O. destruct O. assumption. Qed.
   Lemma ok_bin : forall (k : expr -> expr -> expr) (a b : expr) sc,
     (forall bd, okp bd (k a b) = okp bd a && okp bd b) ->
     config_ok (k a b) sc -> config_ok a sc /\ config_ok b sc.
